@@ -105,6 +105,13 @@ EXPECT = {nm: (fam, be) for nm, (spki, sig, params, fam, be) in c01.ALGS.items()
 KIND_OF_FAMILY = {"Rsa": "Rsa", "EcDsa": "Ec", "EdDsa": "Ed"}
 
 
+def ed_parser_rule(rep, key, leaf):
+    """Ed25519 documents exist in PKCS#8 v1 (OpenSSL, aws-lc-rs) and v2 (ring) form.  ring's `from_pkcs8` accepts v2 only,
+    aws-lc-rs' accepts both: only `from_pkcs8_maybe_unchecked` makes every loader of both back ends accept the same keys."""
+    ps = sorted(c.split("::")[-1] for c in calls_of(leaf) if "Ed25519KeyPair::" in c)
+    rep.ob("C11.pairs", key + "|ed25519-parser", ps == ["from_pkcs8_maybe_unchecked"], "Ed25519 keys are parsed with from_pkcs8_maybe_unchecked (PKCS#8 v1 and v2) by every loader of both back ends", expected=["from_pkcs8_maybe_unchecked"], found=ps)
+
+
 def check_pairs(cfg, crate, rep, tables):
     for fn in (EXPLICIT, EXPLICIT_DER):
         if fn not in crate.bodies:
@@ -129,6 +136,8 @@ def check_pairs(cfg, crate, rep, tables):
             want_kind = KIND_OF_FAMILY.get(fam)
             want_consts = [] if fam == "EdDsa" else [be]
             rep.ob("C11.pairs", key + "|" + alg, kind == want_kind and consts == want_consts, "arm pairs the algorithm with the key kind and back-end constant of the same curve / hash", expected=(want_kind, want_consts), found=(kind, consts))
+            if kind == "Ed":
+                ed_parser_rule(rep, key + "|" + alg, leaf)
             # the parser is fed the stored document
             doc = sv.fields.get("serialized_der")
             parse_in = places(leaf)
@@ -207,6 +216,9 @@ def check_pairs(cfg, crate, rep, tables):
                 order.append(nm)
             want_set = {"PKCS_ED25519", "PKCS_ECDSA_P256_SHA256", "PKCS_ECDSA_P384_SHA384", "PKCS_RSA_SHA256"} | ({"PKCS_ECDSA_P521_SHA512"} if cfg == "K2" else set())
             rep.ob("C11.pairs", key + "|detects", set(got) == want_set, "auto-detection tries exactly the key types of this back end", expected=sorted(want_set), found=sorted(got))
+            for t_ in tuples:
+                if kind_of(t_.items[0]) == "Ed":
+                    ed_parser_rule(rep, key + "|PKCS_ED25519", t_.items[0])
             for alg, (kind, consts) in sorted(got.items()):
                 fam, be = EXPECT.get(alg, (None, None))
                 want_consts = [] if fam == "EdDsa" else [be]
